@@ -5,6 +5,7 @@ from __future__ import annotations
 from harness import common
 
 KIND = {'all_reduce': 1, 'broadcast': 2, 'all_gather': 3, 'reduce_scatter': 4}
+DT = {'torch.float16': 1, 'torch.bfloat16': 2, 'torch.float32': 3, 'torch.float64': 4}
 
 
 def model_args(cfg, hist):
@@ -39,7 +40,9 @@ def model_args(cfg, hist):
             pass                      # all_gather_object / barrier / new_group only: not data collectives
         else:
             return None
-    return [P, D, M, int(cfg.get('symmetry_aware', False)), stages, evs]
+    xdt = 'torch.' + cfg.get('dtype', 'float64')
+    fdt = 'torch.' + cfg['factor_dtype'] if cfg.get('factor_dtype') else xdt
+    return [P, D, M, int(cfg.get('symmetry_aware', False)), [DT[fdt], DT[xdt]], stages, evs]
 
 
 def compare(cfg, hist, w):
@@ -49,8 +52,8 @@ def compare(cfg, hist, w):
     members, per_rank, order = common.run_model([('neox_comm', margs)])[0]
     W = cfg.get('P', 1) * cfg['D'] * cfg['M']
     for r in range(W):
-        obs = [(tuple(x[2]), KIND[x[1]], x[3], 0 if x[5] is None else x[5] + 1) for x in w.log if x[0] == r and x[1] in KIND]
-        exp = [(tuple(members[g]), k, n, root) for g, k, n, root in per_rank[r]]
+        obs = [(tuple(x[2]), KIND[x[1]], x[3], DT.get(x[4], 0), 0 if x[5] is None else x[5] + 1) for x in w.log if x[0] == r and x[1] in KIND]
+        exp = [(tuple(members[g]), k, n, dt, root) for g, k, n, dt, root in per_rank[r]]
         if obs != exp:
             i = next((j for j, (a, b) in enumerate(zip(obs, exp)) if a != b), min(len(obs), len(exp)))
             return (f'rank {r}: collective #{i} observed {obs[i] if i < len(obs) else None} but the model issues '
